@@ -122,7 +122,7 @@ func TestVFReplay(t *testing.T) {
 	if RaceReplay {
 		args = append(args, "-race")
 	}
-	args = append(args, "-overlay", ovPath, "-run", "^TestVFReplay$", "-v", "-timeout", fmt.Sprintf("%ds", int(timeout.Seconds())), "./"+pkgDir)
+	args = append(args, "-overlay", ovPath, "-run", "^TestVFReplay$", "-v", "-timeout", fmt.Sprintf("%ds", int(timeout.Seconds())), PkgPattern(opt.Repo, pkgDir))
 	// allocation-size counterexamples are replayed under a 4 GB address-space limit
 	sh := "ulimit -v 12582912; exec go"
 	if timeout <= 20*time.Second {
